@@ -77,12 +77,15 @@ pub open spec fn is_cand(s: MatrixStr, i: int, j: int) -> bool { 0 <= i < nrows(
 
 pub open spec fn has_col(p: PivotData, j: int) -> bool { 0 <= j < p.data@.len() && p.data@[j].is_some() }
 pub open spec fn prow(p: PivotData, j: int) -> int { p.data@[j].unwrap() as int }
-/// representation invariant of the pivot table
-pub open spec fn piv_wf(s: MatrixStr, p: PivotData) -> bool {
-    &&& p.data@.len() == ncols(s)
+/// representation invariant of the pivot table: the col -> row table and the insertion order describe the same set of columns, once each
+pub open spec fn piv_rep(p: PivotData) -> bool {
     &&& forall|k: int| 0 <= k < p.indices@.len() ==> has_col(p, #[trigger] p.indices@[k] as int)
     &&& forall|j: int| has_col(p, j) ==> exists|k: int| 0 <= k < p.indices@.len() && #[trigger] p.indices@[k] == j
     &&& forall|k: int, l: int| 0 <= k < l < p.indices@.len() ==> p.indices@[k] != p.indices@[l]
+}
+pub open spec fn piv_wf(s: MatrixStr, p: PivotData) -> bool {
+    &&& p.data@.len() == ncols(s)
+    &&& piv_rep(p)
     &&& forall|j: int| has_col(p, j) ==> 0 <= prow(p, j) < nrows(s)
 }
 pub open spec fn is_piv_row(p: PivotData, i: int) -> bool { exists|j: int| has_col(p, j) && #[trigger] prow(p, j) == i }
@@ -222,6 +225,43 @@ impl PivotData {
         requires k < self.indices@.len(), has_col(*self, self.indices@[k as int] as int),
         ensures r.1 == self.indices@[k as int], r.0 == prow(*self, r.1 as int),
     //@body impl/PivotData/pivot_at
+    /// catch up with a later state of the table: afterwards the two agree
+    fn update_from(&mut self, from: &Self)
+        requires piv_rep(*old(self)), piv_rep(*from), extends(*from, *old(self)),
+        ensures final(self).data@ == from.data@, final(self).indices@ == from.indices@,
+    //@body impl/PivotData/update_from for_range=1 loops=1
+    //@+ loop 0 header
+    //@| for k in self.count() .. from.count()
+    //@+ pre-raw
+    //@| let ghost p0 = *self;
+    //@+ loop 0
+    //@| invariant piv_rep(*self), piv_rep(*from), extends(*from, *self), plen(*self) == __it0, __hi0 == plen(*from), __it0 <= __hi0,
+    //@+ loop 0 begin-raw
+    //@| let ghost p1 = *self;
+    //@+ loop 0 begin
+    //@| assert(has_col(*from, from.indices@[k as int] as int));
+    //@| assert(!has_col(*self, from.indices@[k as int] as int)) by {
+    //@|     if has_col(*self, from.indices@[k as int] as int) { let l = choose|l: int| 0 <= l < self.indices@.len() && #[trigger] self.indices@[l] == from.indices@[k as int] as int; assert(from.indices@[l] == self.indices@[l]); }
+    //@| }
+    //@+ loop 0 end
+    //@| assert(piv_rep(*self)) by {
+    //@|     assert forall|l: int| 0 <= l < self.indices@.len() implies has_col(*self, #[trigger] self.indices@[l] as int) by { if l < p1.indices@.len() { assert(has_col(p1, p1.indices@[l] as int)); } }
+    //@|     assert forall|c: int| has_col(*self, c) implies exists|l: int| 0 <= l < self.indices@.len() && #[trigger] self.indices@[l] == c by {
+    //@|         if c == j as int { assert(self.indices@[p1.indices@.len() as int] == c); } else { assert(has_col(p1, c)); let l = choose|l: int| 0 <= l < p1.indices@.len() && #[trigger] p1.indices@[l] == c; assert(self.indices@[l] == c); }
+    //@|     }
+    //@|     assert forall|l: int, l2: int| 0 <= l < l2 < self.indices@.len() implies self.indices@[l] != self.indices@[l2] by { if l2 == p1.indices@.len() { assert(has_col(p1, p1.indices@[l] as int)); } }
+    //@| }
+    //@| assert(extends(*from, *self)) by {
+    //@|     assert forall|c: int| has_col(*self, c) implies from.data@[c] == self.data@[c] by { if c != j as int { assert(has_col(p1, c)); } }
+    //@| }
+    //@+ post
+    //@| assert(self.indices@ =~= from.indices@);
+    //@| assert(self.data@ =~= from.data@) by {
+    //@|     assert forall|c: int| 0 <= c < self.data@.len() implies self.data@[c] == from.data@[c] by {
+    //@|         if has_col(*from, c) { let l = choose|l: int| 0 <= l < from.indices@.len() && #[trigger] from.indices@[l] == c; assert(self.indices@[l] == c); assert(has_col(*self, self.indices@[l] as int)); }
+    //@|         else if has_col(*self, c) { let l = choose|l: int| 0 <= l < self.indices@.len() && #[trigger] self.indices@[l] == c; assert(has_col(*from, from.indices@[l] as int)); }
+    //@|     }
+    //@| }
 }
 
 // ---------------------------------------------------------------- RowWorker: specification of the reachability marks
@@ -403,6 +443,163 @@ pub proof fn lemma_trav_step(w: RowWorker, w2: RowWorker, s: MatrixStr, p: Pivot
     }
 }
 
+/// c is one of the pivot columns p has beyond loc, among the first kk of p
+pub open spec fn newk(loc: PivotData, p: PivotData, kk: int, c: int) -> bool { exists|l: int| plen(loc) <= l < kk && l < p.indices@.len() && #[trigger] p.indices@[l] as int == c }
+/// RowWorker::update_diff after the pivots p.indices[plen(loc) .. kk): those of them that carry a mark (Candidate or Occupied) are queued and Occupied, nothing else changes
+pub open spec fn upd_inv(w0: RowWorker, w: RowWorker, loc: PivotData, p: PivotData, kk: int) -> bool {
+    &&& w.row == w0.row && w.status@.len() == w0.status@.len() && w.ncand as int == ncnt(w.status@, w.status@.len() as int)
+    &&& forall|c: int| 0 <= c < w.status@.len() ==> #[trigger] w.status@[c] == (if newk(loc, p, kk, c) && w0.status@[c] != EntryStatus::None { Occupied } else { w0.status@[c] })
+    &&& forall|c: usize| #[trigger] w.queued.v().contains(c) <==> w0.queued.v().contains(c) || (newk(loc, p, kk, c as int) && c < w0.status@.len() && w0.status@[c as int] != EntryStatus::None)
+    &&& w.queue@.len() >= w0.queue@.len()
+    &&& forall|e: int| 0 <= e < w0.queue@.len() ==> #[trigger] w.queue@[e] == w0.queue@[e]
+    &&& forall|e: int| w0.queue@.len() <= e < w.queue@.len() ==> newk(loc, p, kk, #[trigger] w.queue@[e] as int) && w.queue@[e] < w0.status@.len() && w0.status@[w.queue@[e] as int] != EntryStatus::None
+    &&& forall|c: int| newk(loc, p, kk, c) && 0 <= c < w0.status@.len() && w0.status@[c] != EntryStatus::None ==> #[trigger] in_queue(w, c)
+}
+pub proof fn lemma_hk_extends(loc: PivotData, p: PivotData, c: int)
+    requires extends(p, loc)
+    ensures hk(p, plen(p), c) == (hk(loc, plen(loc), c) || newk(loc, p, plen(p), c))
+{
+    if hk(loc, plen(loc), c) { let l = choose|l: int| 0 <= l < plen(loc) && l < loc.indices@.len() && #[trigger] loc.indices@[l] as int == c; assert(p.indices@[l] as int == c); }
+    if newk(loc, p, plen(p), c) { let l = choose|l: int| plen(loc) <= l < plen(p) && l < p.indices@.len() && #[trigger] p.indices@[l] as int == c; assert(p.indices@[l] as int == c); }
+    if hk(p, plen(p), c) {
+        let l = choose|l: int| 0 <= l < plen(p) && l < p.indices@.len() && #[trigger] p.indices@[l] as int == c;
+        if l < plen(loc) { assert(loc.indices@[l] as int == c); } else { assert(p.indices@[l] as int == c); }
+    }
+}
+/// the marks stay a valid traversal when the table has grown from loc to p and update_diff has run
+pub proof fn lemma_update_diff(w0: RowWorker, w: RowWorker, s: MatrixStr, loc: PivotData, p: PivotData)
+    requires str_wf(s), piv_wf(s, loc), piv_wf(s, p), extends(p, loc), tinv(w0, s, loc, plen(loc), -1, 0), upd_inv(w0, w, loc, p, plen(p)),
+    ensures tinv(w, s, p, plen(p), -1, 0)
+{
+    let k = plen(p);
+    assert forall|c: int| true implies #[trigger] hk(p, k, c) == (hk(loc, plen(loc), c) || newk(loc, p, k, c)) by { lemma_hk_extends(loc, p, c); }
+    assert forall|c: int| #[trigger] has_col(loc, c) implies has_col(p, c) && prow(p, c) == prow(loc, c) by { }
+    assert forall|e: int| 0 <= e < w.queue@.len() implies w.queued.v().contains(#[trigger] w.queue@[e]) by {
+        if e < w0.queue@.len() { assert(w.queue@[e] == w0.queue@[e]); assert(w0.queued.v().contains(w0.queue@[e])); }
+    }
+    assert forall|c: usize| #[trigger] w.queued.v().contains(c) implies hk(p, k, c as int) && has_col(p, c as int) && w.status@[c as int] == Occupied by {
+        lemma_hk_full(s, p, c as int);
+        if w0.queued.v().contains(c) { assert(has_col(loc, c as int)); assert(w0.status@[c as int] == Occupied); }
+    }
+    assert forall|e: int| 0 <= e < ent(s, w.row as int).len() implies w.status@[(#[trigger] ent(s, w.row as int)[e]) as int] != EntryStatus::None
+            && (hk(p, k, ent(s, w.row as int)[e] as int) ==> w.queued.v().contains(ent(s, w.row as int)[e])) by {
+        let c = ent(s, w0.row as int)[e];
+        assert(w0.status@[c as int] != EntryStatus::None);
+    }
+    assert forall|c: int| in_queue(w0, c) implies in_queue(w, c) by {
+        let e0 = choose|e0: int| 0 <= e0 < w0.queue@.len() && #[trigger] w0.queue@[e0] as int == c; assert(w.queue@[e0] as int == c);
+    }
+    assert forall|c: usize, e: int| w.queued.v().contains(c) && !in_queue(w, c as int) && c as int != -1 && 0 <= e < pent(s, p, c as int).len()
+            implies occq(w, p, k, (#[trigger] pent(s, p, c as int)[e]) as int) by {
+        if !w0.queued.v().contains(c) { assert(in_queue(w, c as int)); }
+        assert(has_col(loc, c as int));
+        if in_queue(w0, c as int) { assert(in_queue(w, c as int)); }
+        assert(pent(s, p, c as int) == pent(s, loc, c as int));
+        assert(occq(w0, loc, plen(loc), pent(s, loc, c as int)[e] as int));
+    }
+    assert forall|c: int| 0 <= c < w.status@.len() && #[trigger] w.status@[c] == Candidate implies row_has(s, w.row as int, c) && is_cand(s, w.row as int, c) && !hk(p, k, c) by {
+        assert(w0.status@[c] == Candidate);
+    }
+}
+/// specifications depend on a pivot table only through its views
+pub proof fn lemma_cong(w: RowWorker, s: MatrixStr, p: PivotData, p2: PivotData)
+    requires p2.data@ == p.data@, p2.indices@ == p.indices@, piv_wf(s, p), tinv(w, s, p, plen(p), -1, 0),
+    ensures piv_wf(s, p2), tinv(w, s, p2, plen(p2), -1, 0), plen(p) == plen(p2)
+{
+    let k = plen(p);
+    assert forall|c: int| true implies #[trigger] has_col(p2, c) == has_col(p, c) by { }
+    assert forall|c: int| true implies #[trigger] prow(p2, c) == prow(p, c) by { }
+    assert forall|c: int| true implies #[trigger] hk(p2, k, c) == hk(p, k, c) by {
+        if hk(p, k, c) { let l = choose|l: int| 0 <= l < k && l < p.indices@.len() && #[trigger] p.indices@[l] as int == c; assert(p2.indices@[l] as int == c); }
+        if hk(p2, k, c) { let l = choose|l: int| 0 <= l < k && l < p2.indices@.len() && #[trigger] p2.indices@[l] as int == c; assert(p.indices@[l] as int == c); }
+    }
+    assert forall|c: int| true implies #[trigger] pent(s, p2, c) == pent(s, p, c) by { }
+    assert(piv_wf(s, p2)) by {
+        assert forall|l: int| 0 <= l < p2.indices@.len() implies has_col(p2, #[trigger] p2.indices@[l] as int) by { assert(has_col(p, p.indices@[l] as int)); }
+        assert forall|j: int| has_col(p2, j) implies exists|l: int| 0 <= l < p2.indices@.len() && #[trigger] p2.indices@[l] == j by {
+            assert(has_col(p, j)); let l = choose|l: int| 0 <= l < p.indices@.len() && #[trigger] p.indices@[l] == j; assert(p2.indices@[l] == j);
+        }
+        assert forall|j: int| has_col(p2, j) implies 0 <= prow(p2, j) < nrows(s) by { assert(has_col(p, j)); }
+    }
+    assert forall|c: usize| #[trigger] w.queued.v().contains(c) implies hk(p2, k, c as int) && has_col(p2, c as int) && w.status@[c as int] == Occupied by { assert(hk(p, k, c as int)); }
+    assert forall|e: int| 0 <= e < ent(s, w.row as int).len() implies w.status@[(#[trigger] ent(s, w.row as int)[e]) as int] != EntryStatus::None
+            && (hk(p2, k, ent(s, w.row as int)[e] as int) ==> w.queued.v().contains(ent(s, w.row as int)[e])) by { assert(hk(p2, k, ent(s, w.row as int)[e] as int) == hk(p, k, ent(s, w.row as int)[e] as int)); }
+    assert forall|c: usize, e: int| w.queued.v().contains(c) && !in_queue(w, c as int) && c as int != -1 && 0 <= e < pent(s, p2, c as int).len()
+            implies occq(w, p2, k, (#[trigger] pent(s, p2, c as int)[e]) as int) by {
+        assert(pent(s, p2, c as int) == pent(s, p, c as int));
+        let x = pent(s, p, c as int)[e] as int;
+        assert(occq(w, p, k, x)); assert(hk(p2, k, x) == hk(p, k, x));
+    }
+    assert forall|c: int| 0 <= c < w.status@.len() && #[trigger] w.status@[c] == Candidate implies row_has(s, w.row as int, c) && is_cand(s, w.row as int, c) && !hk(p2, k, c) by { assert(hk(p2, k, c) == hk(p, k, c)); }
+}
+/// the marks are complete and j is a surviving candidate: (w.row, j) may be committed
+pub open spec fn ready(w: RowWorker, s: MatrixStr, p: PivotData, j: int) -> bool {
+    tinv(w, s, p, plen(p), -1, 0) && w.queue@.len() == 0 && 0 <= j < w.status@.len() && w.status@[j] == Candidate
+}
+/// committing a surviving candidate keeps the whole invariant: distinct rows and columns, pivot condition, acyclic
+pub proof fn lemma_ready_add(w: RowWorker, s: MatrixStr, p: PivotData, p2: PivotData, j: int)
+    requires pf_inv(s, p), ready(w, s, p, j), !is_piv_row(p, w.row as int), added(p, p2, w.row as int, j),
+    ensures pf_inv(s, p2), extends(p2, p), !has_col(p, j), has_col(p2, j), prow(p2, j) == w.row,
+        forall|c: int| has_col(p2, c) <==> (c == j || has_col(p, c)),
+{
+    let k = plen(p);
+    let i = w.row as int;
+    lemma_hk_full(s, p, j);
+    lemma_added_wf(s, p, p2, i, j);
+    let q = |c: int| 0 <= c < ncols(s) && w.queued.v().contains(c as usize);
+    assert forall|c: int, c2: int| q(c) && #[trigger] edge(s, p, c, c2) implies q(c2) by {
+        let e = choose|e: int| 0 <= e < ent(s, prow(p, c)).len() && #[trigger] ent(s, prow(p, c))[e] == c2;
+        assert(!in_queue(w, c));
+        assert(occq(w, p, k, pent(s, p, (c as usize) as int)[e] as int));
+        lemma_hk_full(s, p, c2);
+    }
+    assert forall|c2: int| has_col(p, c2) && #[trigger] row_has(s, i, c2) implies q(c2) by {
+        let e = choose|e: int| 0 <= e < ent(s, i).len() && #[trigger] ent(s, i)[e] == c2;
+        lemma_hk_full(s, p, c2);
+        assert(hk(p, k, ent(s, w.row as int)[e] as int));
+    }
+    assert forall|c: int| q(c) implies !row_has(s, #[trigger] prow(p, c), j) by {
+        if row_has(s, prow(p, c), j) {
+            let e = choose|e: int| 0 <= e < ent(s, prow(p, c)).len() && #[trigger] ent(s, prow(p, c))[e] == j;
+            assert(!in_queue(w, c));
+            assert(occq(w, p, k, pent(s, p, (c as usize) as int)[e] as int));
+        }
+    }
+    lemma_add_pivot(s, p, p2, i, j, q);
+}
+/// pairwise different numbers below n are at most n many
+pub proof fn lemma_nodup_bound(q: Seq<usize>, n: int)
+    requires 0 <= n, forall|k: int| 0 <= k < q.len() ==> (#[trigger] q[k] as int) < n, forall|k: int, l: int| 0 <= k < l < q.len() ==> q[k] != q[l],
+    ensures q.len() <= n
+    decreases n
+{
+    if q.len() > 0 {
+        if n == 0 { assert((q[0] as int) < 0); }
+        else if exists|k: int| 0 <= k < q.len() && #[trigger] q[k] as int == n - 1 {
+            let k = choose|k: int| 0 <= k < q.len() && #[trigger] q[k] as int == n - 1;
+            let r = q.remove(k);
+            assert forall|a: int| 0 <= a < r.len() implies (#[trigger] r[a] as int) < n - 1 by {
+                if a < k { assert(r[a] == q[a]); assert(q[a] != q[k]); } else { assert(r[a] == q[a + 1]); assert(q[k] != q[a + 1]); }
+            }
+            assert forall|a: int, b: int| 0 <= a < b < r.len() implies r[a] != r[b] by {
+                let a2 = if a < k { a } else { a + 1 }; let b2 = if b < k { b } else { b + 1 };
+                assert(r[a] == q[a2] && r[b] == q[b2]); assert(q[a2] != q[b2]);
+            }
+            lemma_nodup_bound(r, n - 1);
+        } else {
+            assert forall|a: int| 0 <= a < q.len() implies (#[trigger] q[a] as int) < n - 1 by { }
+            lemma_nodup_bound(q, n - 1);
+        }
+    }
+}
+pub proof fn lemma_plen_bound(s: MatrixStr, p: PivotData)
+    requires piv_wf(s, p)
+    ensures plen(p) <= ncols(s)
+{
+    assert forall|k: int| 0 <= k < p.indices@.len() implies (#[trigger] p.indices@[k] as int) < ncols(s) by { assert(has_col(p, p.indices@[k] as int)); }
+    lemma_nodup_bound(p.indices@, ncols(s));
+}
+
 impl RowWorker {
     fn new(size: usize) -> (r: RowWorker)
         ensures r.status@.len() == size, forall|c: int| 0 <= c < size ==> r.status@[c] == EntryStatus::None, r.ncand == 0, r.queue@.len() == 0, r.queued.v() == Set::<usize>::empty(), r.row == 0,
@@ -539,6 +736,201 @@ impl RowWorker {
     //@| if self.ncand > 0 { lemma_trav_step(w1, *self, *str, *pivots, j as int, pos1, j2); }
     //@+ loop 1 after
     //@| if self.ncand > 0 { lemma_cur_done(*self, *str, *pivots, plen(*pivots), j as int); }
+
+    fn choose_candidate(&self, str: &MatrixStr) -> (r: Option<Col>)
+        ensures r.is_some() ==> r.unwrap() < self.status@.len() && self.status@[r.unwrap() as int] == Candidate,
+            r.is_none() ==> forall|c: int| 0 <= c < self.status@.len() ==> self.status@[c] != Candidate,
+    //@body impl/RowWorker/choose_candidate for_iter=1 loops=1
+    //@+ loop 0 header
+    //@| (0 .. n) .filter(|&j|
+    //@+ loop 0
+    //@| invariant __hi0 == self.status@.len(), __it0 <= __hi0,
+    //@|     __best0.is_some() ==> __best0.unwrap() < __it0 && self.status@[__best0.unwrap() as int] == Candidate,
+    //@|     __best0.is_none() ==> forall|c: int| 0 <= c < __it0 ==> self.status@[c] != Candidate,
+
+    fn update_diff(&mut self, loc_pivots: &PivotData, pivots: &PivotData)
+        requires piv_rep(*pivots), plen(*loc_pivots) <= plen(*pivots), old(self).ncand as int == ncnt(old(self).status@, old(self).status@.len() as int),
+            forall|k: int| 0 <= k < pivots.indices@.len() ==> (#[trigger] pivots.indices@[k]) < old(self).status@.len(),
+        ensures upd_inv(*old(self), *final(self), *loc_pivots, *pivots, plen(*pivots)),
+    //@body impl/RowWorker/update_diff for_range=1 loops=1
+    //@+ loop 0 header
+    //@| for k in loc_pivots.count()..pivots.count()
+    //@+ pre-raw
+    //@| let ghost w0 = *self;
+    //@+ loop 0
+    //@| invariant piv_rep(*pivots), plen(*loc_pivots) <= __it0 <= __hi0, __hi0 == plen(*pivots), w0.ncand as int == ncnt(w0.status@, w0.status@.len() as int),
+    //@|     forall|k: int| 0 <= k < pivots.indices@.len() ==> (#[trigger] pivots.indices@[k]) < w0.status@.len(),
+    //@|     upd_inv(w0, *self, *loc_pivots, *pivots, __it0 as int),
+    //@+ loop 0 begin-raw
+    //@| let ghost w1 = *self;
+    //@+ loop 0 begin
+    //@| assert(pivots.indices@[k as int] < w0.status@.len());
+    //@| // the k-th pivot column is none of the earlier ones, so its mark is still the original one
+    //@| assert(!newk(*loc_pivots, *pivots, k as int, pivots.indices@[k as int] as int)) by {
+    //@|     if newk(*loc_pivots, *pivots, k as int, pivots.indices@[k as int] as int) { let l = choose|l: int| plen(*loc_pivots) <= l < k && l < pivots.indices@.len() && #[trigger] pivots.indices@[l] as int == pivots.indices@[k as int] as int; assert(pivots.indices@[l] != pivots.indices@[k as int]); }
+    //@| }
+    //@+ loop 0 end
+    //@| let jj = pivots.indices@[k as int];
+    //@| assert forall|c: int| true implies #[trigger] newk(*loc_pivots, *pivots, k + 1, c) == (newk(*loc_pivots, *pivots, k as int, c) || c == jj as int) by {
+    //@|     if newk(*loc_pivots, *pivots, k as int, c) { let l = choose|l: int| plen(*loc_pivots) <= l < k && l < pivots.indices@.len() && #[trigger] pivots.indices@[l] as int == c; assert(pivots.indices@[l] as int == c); }
+    //@|     if c == jj as int { assert(pivots.indices@[k as int] as int == c); }
+    //@|     if newk(*loc_pivots, *pivots, k + 1, c) { let l = choose|l: int| plen(*loc_pivots) <= l < k + 1 && l < pivots.indices@.len() && #[trigger] pivots.indices@[l] as int == c; if l < k { assert(pivots.indices@[l] as int == c); } }
+    //@| }
+    //@| assert forall|c: int| newk(*loc_pivots, *pivots, k + 1, c) && 0 <= c < w0.status@.len() && w0.status@[c] != EntryStatus::None implies #[trigger] in_queue(*self, c) by {
+    //@|     if c == jj as int { assert(self.queue@[w1.queue@.len() as int] as int == c); }
+    //@|     else { assert(in_queue(w1, c)); let e0 = choose|e0: int| 0 <= e0 < w1.queue@.len() && #[trigger] w1.queue@[e0] as int == c; assert(self.queue@[e0] as int == c); }
+    //@| }
+    //@| assert forall|e: int| w0.queue@.len() <= e < self.queue@.len() implies newk(*loc_pivots, *pivots, k + 1, #[trigger] self.queue@[e] as int) && self.queue@[e] < w0.status@.len() && w0.status@[self.queue@[e] as int] != EntryStatus::None by {
+    //@|     if e < w1.queue@.len() { assert(self.queue@[e] == w1.queue@[e]); }
+    //@| }
+    //@| assert forall|e: int| 0 <= e < w0.queue@.len() implies #[trigger] self.queue@[e] == w0.queue@[e] by { assert(self.queue@[e] == w1.queue@[e]); }
+
+    fn find_cycle_free_pivots(&mut self, i: usize, str: &MatrixStr, pivots: &PivotData) -> (r: Option<Col>)
+        requires str_wf(*str), piv_wf(*str, *pivots), i < nrows(*str), old(self).status@.len() == ncols(*str),
+        ensures final(self).row == i, final(self).status@.len() == ncols(*str), r.is_some() ==> ready(*final(self), *str, *pivots, r.unwrap() as int),
+    //@body impl/RowWorker/find_cycle_free_pivots
+    //@+ post
+    //@| lemma_ncnt_zero(self.status@, self.status@.len() as int);
+}
+
+// ---------------------------------------------------------------- the shared pivot table behind std::sync::RwLock: lock-invariant model (ASSUMED)
+// The lock owns a PivotData satisfying pf_inv for the lock's matrix structure.  Acquiring for writing yields the current value g:
+//   * invariant:  pf_inv(st, g);
+//   * history:    g extends every value seen earlier (guaranteed by every release: the table only grows);
+//   * rely:       a row that only this invocation commits on (`owned`) is not a pivot row of g.
+// Releasing (the guard's drop) demands the invariant and the guarantee: the table extends the acquired one and every new pivot lies on the
+// caller's own row.  Mutual exclusion of std's RwLock is what makes this rule sound for every interleaving; it is not proved here.
+pub struct PLock { pub id: Ghost<int> }
+impl PLock {
+    pub uninterp spec fn st(&self) -> MatrixStr;
+    pub uninterp spec fn seen(&self, data: Seq<Option<usize>>, indices: Seq<usize>) -> bool;
+}
+#[verifier::external_body]
+pub fn lock_write_(lk: &PLock, Ghost(loc): Ghost<PivotData>, Ghost(row): Ghost<int>, Ghost(owned): Ghost<bool>) -> (g: PivotData)
+    requires lk.seen(loc.data@, loc.indices@),
+    ensures pf_inv(lk.st(), g), extends(g, loc), owned ==> !is_piv_row(g, row), lk.seen(g.data@, g.indices@),
+{ unimplemented!() }
+#[verifier::external_body]
+pub fn lock_release_(lk: &PLock, g: &PivotData, Ghost(g0): Ghost<PivotData>, Ghost(row): Ghost<int>, Ghost(owned): Ghost<bool>)
+    requires pf_inv(lk.st(), *g), extends(*g, g0), forall|c: int| has_col(*g, c) && !has_col(g0, c) ==> owned && #[trigger] prow(*g, c) == row,
+    ensures lk.seen(g.data@, g.indices@),
+{ unimplemented!() }
+
+// ---------------------------------------------------------------- PivotFinder
+#[derive(PartialEq, Eq, Structural, Clone, Copy)]
+//@item enum/PivotType
+//@item struct/PivotFinder
+//@item const/LOG_THRESHOLD
+
+/// the rows still to be searched, as handed out by PivotFinder::remain_rows (model of the collected vector and its by-value iteration)
+pub struct RowVec { pub v: Vec<usize> }
+pub struct RowVecIter { pub es: Ghost<Seq<usize>>, pub pos: Ghost<int> }
+pub struct RemIter { pub es: Ghost<Seq<usize>> }
+impl RemIter { #[verifier::external_body] pub fn collect(self) -> (r: RowVec) ensures r.v@ == self.es@ { unimplemented!() } }
+impl RowVec {
+    pub fn len(&self) -> (r: usize) ensures r == self.v@.len() { self.v.len() }
+    #[verifier::external_body] pub fn into_iter(self) -> (r: RowVecIter) ensures r.es@ == self.v@, r.pos@ == 0 { unimplemented!() }
+}
+impl RowVecIter {
+    pub fn into_iter(self) -> (r: Self) ensures r == self { self }
+    #[verifier::external_body] pub fn next(&mut self) -> (r: Option<usize>)
+        requires 0 <= old(self).pos@ <= old(self).es@.len()
+        ensures final(self).es@ == old(self).es@,
+            old(self).pos@ < old(self).es@.len() ==> (final(self).pos@ == old(self).pos@ + 1 && r == Some(old(self).es@[old(self).pos@])),
+            old(self).pos@ >= old(self).es@.len() ==> (final(self).pos@ == old(self).pos@ && r.is_none()),
+    { unimplemented!() }
+}
+/// rows: pairwise different, in range, none of them a pivot row
+pub open spec fn rows_ok(s: MatrixStr, p: PivotData, v: Seq<usize>, from: int) -> bool {
+    &&& forall|k: int| from <= k < v.len() ==> (#[trigger] v[k]) < nrows(s) && !is_piv_row(p, v[k] as int)
+    &&& forall|k: int, l: int| 0 <= k < l < v.len() ==> v[k] != v[l]
+}
+
+impl PivotFinder {
+    fn rows(&self) -> (r: Row) ensures r == self.str.shape.0,
+    //@body impl/PivotFinder/rows
+    fn cols(&self) -> (r: Col) ensures r == self.str.shape.1,
+    //@body impl/PivotFinder/cols
+    /// ASSUMED (AHashSet collect + filter + itertools::sorted_by on f64 weights): the non-empty rows that carry no pivot, each once
+    #[verifier::external_body] fn remain_rows(&self) -> (r: RemIter)
+        requires str_wf(self.str), piv_wf(self.str, self.pivots),
+        ensures rows_ok(self.str, self.pivots, r.es@, 0),
+    { unimplemented!() }
+    /// log level query -- UNINTERPRETED
+    #[verifier::external_body] fn should_report(&self) -> (r: bool) { unimplemented!() }
+
+    /// sequential search phase: every commit keeps pf_inv
+    fn find_cycle_free_pivots_s(&mut self)
+        requires pf_inv(old(self).str, old(self).pivots),
+        ensures pf_inv(final(self).str, final(self).pivots), final(self).str == old(self).str, extends(final(self).pivots, old(self).pivots),
+    //@body impl/PivotFinder/find_cycle_free_pivots_s for_iter=1 loops=1 subst=Vec:RowVec
+    //@+ loop 0 header
+    //@| for i in remain_rows
+    //@+ pre-raw
+    //@| let ghost s0 = self.str; let ghost p0 = self.pivots;
+    //@+ loop 0
+    //@| invariant self.str == s0, pf_inv(s0, self.pivots), extends(self.pivots, p0), w.status@.len() == ncols(s0), 0 <= __it0.pos@ <= __it0.es@.len(), __it0.es@.len() <= usize::MAX,
+    //@|     rows_ok(s0, self.pivots, __it0.es@, __it0.pos@), row_count <= __it0.pos@,
+    //@| ensures __it0.pos@ == __it0.es@.len(),
+    //@| decreases __it0.es@.len() - __it0.pos@,
+    //@+ loop 0 begin-raw
+    //@| let ghost p1 = self.pivots; let ghost pos1 = __it0.pos@ - 1;
+    //@+ loop 0 begin
+    //@| assert(i == __it0.es@[pos1]);
+    //@+ after-call set#0
+    //@| lemma_ready_add(w, s0, p1, self.pivots, j as int);
+    //@| assert forall|k: int| pos1 + 1 <= k < __it0.es@.len() implies !is_piv_row(self.pivots, (#[trigger] __it0.es@[k]) as int) by {
+    //@|     if is_piv_row(self.pivots, __it0.es@[k] as int) {
+    //@|         let c = choose|c: int| has_col(self.pivots, c) && #[trigger] prow(self.pivots, c) == __it0.es@[k] as int;
+    //@|         if c != j as int { assert(has_col(p1, c)); assert(prow(p1, c) == __it0.es@[k] as int); assert(is_piv_row(p1, __it0.es@[k] as int)); }
+    //@|         else { assert(__it0.es@[pos1] != __it0.es@[k]); }
+    //@|     }
+    //@| }
+    //@| assert(extends(self.pivots, p0));
+
+    /// the validate-or-retry critical section of the parallel phase.  Preconditions describe the (unverified) dispatcher
+    /// find_cycle_free_pivots_m: `w` was initialised for its row on `loc_pivots` (RowWorker::init, verified above), `loc_pivots` is an
+    /// earlier value of the shared table, and -- ghost `owned` below -- this invocation is the only one committing on row `w.row`.
+    fn find_cycle_free_pivots_in(&self, pivots: &PLock, loc_pivots: &mut PivotData, w: &mut RowWorker)
+        requires str_wf(self.str), pivots.st() == self.str, piv_wf(self.str, *old(loc_pivots)), pivots.seen(old(loc_pivots).data@, old(loc_pivots).indices@),
+            tinv(*old(w), self.str, *old(loc_pivots), plen(*old(loc_pivots)), -1, 0),
+        ensures final(w).row == old(w).row,
+    //@body impl/PivotFinder/find_cycle_free_pivots_in loops=1
+    //@+ loop 0 header
+    //@| loop
+    //@+ pre-raw
+    //@| let ghost s0 = self.str; let ghost row0 = w.row; let ghost mut owned = true;
+    //@+ loop 0
+    //@| invariant_except_break str_wf(s0), s0 == self.str, pivots.st() == s0, piv_wf(s0, *loc_pivots), pivots.seen(loc_pivots.data@, loc_pivots.indices@),
+    //@|     tinv(*w, s0, *loc_pivots, plen(*loc_pivots), -1, 0), owned,
+    //@| invariant w.row == row0,
+    //@| decreases ncols(s0) - plen(*loc_pivots),
+    //@+ after-let j
+    //@| lemma_ncnt_zero(w.status@, w.status@.len() as int);
+    //@| assert(ready(*w, s0, *loc_pivots, j as int));
+    //@| lemma_plen_bound(s0, *loc_pivots);
+    //@+ guard pivots acquire
+    //@| lock_write_(__lk_pivots, Ghost(*loc_pivots), Ghost(row0 as int), Ghost(owned))
+    //@+ guard pivots release
+    //@| lock_release_(__lk_pivots, &pivots, Ghost(g0), Ghost(row0 as int), Ghost(owned)); proof { if plen(pivots) > plen(g0) { owned = false; } }
+    //@+ after-let-raw pivots
+    //@| let ghost g0 = pivots; let ghost wq = *w; let ghost loc0 = *loc_pivots;
+    //@| proof { assert forall|k: int| 0 <= k < pivots.indices@.len() implies (#[trigger] pivots.indices@[k]) < w.status@.len() by { assert(has_col(pivots, pivots.indices@[k] as int)); } }
+    //@+ after-call update_diff#0
+    //@| lemma_update_diff(wq, *w, s0, loc0, pivots);
+    //@| lemma_hk_full(s0, pivots, j as int);
+    //@| lemma_plen_bound(s0, pivots);
+    //@| if w.queue@.len() > 0 { let c = w.queue@[0]; assert(newk(loc0, pivots, plen(pivots), c as int)); }
+    //@| else {
+    //@|     // nothing was queued: the candidate j is not one of the new pivot columns and keeps its mark
+    //@|     if newk(loc0, pivots, plen(pivots), j as int) { assert(in_queue(*w, j as int)); }
+    //@|     assert(w.status@[j as int] == Candidate);
+    //@|     assert(!has_col(pivots, j as int));
+    //@| }
+    //@+ after-call update_from#0
+    //@| lemma_cong(*w, s0, pivots, *loc_pivots);
+    //@+ after-call set#0
+    //@| lemma_ready_add(*w, s0, g0, pivots, j as int);
 }
 
 } // verus!
